@@ -1,3 +1,4 @@
+import re
 """Engine X: decides, for ALL strings s, whether  decode_target(prefix + encode(s) + suffix) = s  with the constant
 closed exactly at its end and no live expansion, where `encode` is a chain of char->string replacements extracted from
 /repo (a composition of homomorphisms, hence a homomorphism given by its action on single characters) and `decode` is a
@@ -103,6 +104,20 @@ def _cond(e, c, cname):
         if e["op"] == "||":
             return a or _cond(e["right"], c, cname)
         return a and _cond(e["right"], c, cname)
+    if k == "Macro" and e.get("name", "").split("::")[-1] == "matches" and e.get("args") and e["args"][0].get("k") == "Path" and e["args"][0]["path"] == cname and isinstance(e.get("pat_tokens"), str):
+        toks = [t.strip() for t in e["pat_tokens"].split("|")]
+        chars = []
+        for t in toks:
+            m = re.fullmatch(r"'(\\.|[^'\\])'", t)
+            if not m:
+                raise _Unsupported()
+            ch = m.group(1)
+            if ch.startswith("\\"):
+                ch = {"n": "\n", "t": "\t", "r": "\r", "0": "\0", "\\": "\\", "'": "'", '"': '"'}.get(ch[1])
+                if ch is None:
+                    raise _Unsupported()
+            chars.append(ch)
+        return c in chars
     if k == "Binary" and e["op"] in ("==", "!="):
         l, r = e["left"], e["right"]
         for x, y in ((l, r), (r, l)):
@@ -172,10 +187,18 @@ def extract_charloop(fn):
     """-> (prefix, suffix, CharMap) for `let mut out = String::..; for c in s.chars() { .. out.push(..) .. } out` (optionally wrapped
     in one format!("<p>{}<s>", out)), the loop body made of if / match on c and pushes of c or of literals; None otherwise"""
     st = fn.body.get("stmts", [])
-    if len(st) != 3 or len(fn.params) != 1:
+    if len(st) < 3 or len(fn.params) != 1:
         return None
-    loc, loop, tail = st
-    if loc["k"] != "Local" or loop["k"] != "ExprStmt" or loop["expr"]["k"] != "ForLoop" or tail["k"] != "ExprStmt" or tail.get("semi"):
+    # `let mut out = ..; [out.push(lit);]* for c in s.chars() { .. } [out.push(lit);]* out` -- literal pushes around the loop are the
+    # constant's opening / closing text
+    loc, tail = st[0], st[-1]
+    mid = st[1:-1]
+    li = [i for i, x in enumerate(mid) if x["k"] == "ExprStmt" and x["expr"]["k"] == "ForLoop"]
+    if len(li) != 1:
+        return None
+    loop = mid[li[0]]
+    pre_s, post_s = mid[:li[0]], mid[li[0] + 1:]
+    if loc["k"] != "Local" or tail["k"] != "ExprStmt" or tail.get("semi"):
         return None
     pat = loc["pat"]
     if pat["k"] == "PType":
@@ -190,6 +213,19 @@ def extract_charloop(fn):
         return None
     cname = lp["pat"]["name"]
     prefix = suffix = ""
+
+    def lit_pushes(stmts):
+        out = ""
+        for x in stmts:
+            e = x.get("expr") if x["k"] == "ExprStmt" else None
+            if not (e and e["k"] == "MethodCall" and e["method"] in ("push", "push_str") and e["recv"]["k"] == "Path" and e["recv"]["path"] == oname and len(e["args"]) == 1 and e["args"][0]["k"] == "Lit"):
+                return None
+            out += e["args"][0]["v"]
+        return out
+
+    pre, post = lit_pushes(pre_s), lit_pushes(post_s)
+    if pre is None or post is None:
+        return None
     t = tail["expr"]
     if t["k"] == "Macro" and t["name"].split("::")[-1] == "format" and t.get("args"):
         tp = t["args"][0]
@@ -203,6 +239,7 @@ def extract_charloop(fn):
         prefix, suffix = tp["v"][:i], tp["v"][j + 1:]
     elif not (t["k"] == "Path" and t["path"] == oname):
         return None
+    prefix, suffix = pre + prefix, suffix + post
     cm = CharMap(lp["body"], cname, oname, "loop body")
     try:
         imgs = {c: cm.image(c) for c in THOROUGH_ALPHABET}
